@@ -34,7 +34,7 @@ from vf.ref import http1 as ref
 PROPERTY = "C07"
 LEVEL = "exploration"
 ENGINE = "sansio"
-BUDGET = {"quick": (750, 21), "thorough": (80000, 240)}
+BUDGET = {"quick": (1300, 20), "thorough": (80000, 240)}
 WORKERS = {"quick": 4, "thorough": 16}
 REQUIRED = [
     "limit.error", "limit.client", "limit.not_forwarded", "limit.exact", "m3.bound", "m3.streaming",
@@ -199,14 +199,38 @@ def run_case(ctx, opts):
         return rs["raw"], rs["close_after"]
 
     class SegPeer(peers.H1ServerPeer):
+        """Reactive origin; parses incrementally (offset of fully parsed requests) and does not re-read a large in-flight
+        chunked body before its terminator can have arrived (keeps 1-2 MB bodies affordable)."""
+
+        pos = 0
+        inflight_chunked = False
+
+        def on_data(self_, data):
+            buf = self_.received
+            if self_.inflight_chunked and len(buf) - self_.pos > 20000 and not buf.endswith(b"0\r\n\r\n"):
+                return
+            self_._reparse()
+
         def _reparse(self_):
-            status, msgs, rest = ref.parse_requests(bytes(self_.received))
-            self_.status = status
-            self_.requests = msgs
-            while self_.answered < len(msgs) and not self_.closed:
-                k = self_.answered
+            while not self_.closed and self_.status == "ok":
+                buf = bytes(self_.received)
+                if buf[self_.pos :].strip(b"\r\n") == b"":
+                    return
+                try:
+                    msg, npos = ref.parse_request(buf, self_.pos)
+                except ref.Incomplete:
+                    he = buf.find(b"\r\n\r\n", self_.pos)
+                    self_.inflight_chunked = he >= 0 and b"chunked" in buf[self_.pos : he].lower()
+                    return
+                except ref.Reject as e:
+                    self_.status = "reject"
+                    self_.reject_reason = str(e)
+                    return
+                self_.pos = npos
+                self_.inflight_chunked = False
+                self_.requests.append(msg)
                 self_.answered += 1
-                data, close_after = responder(k, msgs[k], self_)
+                data, close_after = responder(self_.answered - 1, msg, self_)
                 for s in g.segments(data, r, case["server_seg"], case["fixed_seg"]):
                     self_.send(s)
                 if close_after:
